@@ -249,7 +249,10 @@ Proof.
           cbn [nthN] in Hx. destruct (i' =? 0); [injection Hx as ->; left; reflexivity|right; eapply IH; eauto].
         - exists (sc_single (t_stsc tb)). split; [reflexivity|]. lia. }
       destruct Hsd as [sdid [Hsd1 Hsd2]]. rewrite Hsd1. cbn [rbind].
-      unfold stsc_add_entry. cbn [sc_entries sc_single sc_ids]. rewrite rev_unit.
+      (* AddEntry refuses description id 0 since cb02a8f: the id handed over here is never 0 *)
+      assert (Hsd0 : (sdid =? 0) = false).
+      { revert Hsd2. destruct (sc_single (t_stsc tb) =? 0) eqn:EsA; intros Hsd2; lia. }
+      unfold stsc_add_entry. rewrite Hsd0. cbn [sc_entries sc_single sc_ids]. rewrite rev_unit.
       rewrite (u32_small (first_chunk e + q)) by lia. rewrite sub32_small by lia.
       replace (first_chunk e + q - first_chunk e) with q by lia.
       rewrite (u32_small (q * spc e)) by lia. rewrite (u32_small (first_sample e + q * spc e)) by lia.
